@@ -645,7 +645,12 @@ pub fn gen_dir(rng: &mut Rng, o: GenOpts) -> Dir {
 /// a directive set: random directives, then duplicates (same key, new level / spelling) and
 /// conflicting entries, in random order
 pub fn gen_set(rng: &mut Rng, o: GenOpts) -> Vec<Dir> {
+    // one set in 25 is long (a built-in default list with user overrides appended): more than
+    // 32 entries, a quarter of them duplicates of an earlier key - whatever sorts or merges the
+    // whole list at once leaves its small-input paths
+    let long = rng.chance(1, 25);
     let n = match rng.below(20) {
+        _ if long => 33 + rng.usize(40),
         0 => 1,
         1..=7 => 2 + rng.usize(3),
         8..=16 => 4 + rng.usize(5),
@@ -653,7 +658,7 @@ pub fn gen_set(rng: &mut Rng, o: GenOpts) -> Vec<Dir> {
     };
     let mut v: Vec<Dir> = vec![];
     for _ in 0..n {
-        if !v.is_empty() && rng.chance(1, 6) {
+        if !v.is_empty() && (rng.chance(1, 6) || (long && rng.chance(1, 5))) {
             // duplicate / conflicting entry
             let mut d = rng.pick(&v).clone();
             let lvl = gen_level(rng);
